@@ -10,12 +10,15 @@ import vcheck  # noqa: E402
 
 MODULES = {
     "C01": "p_wire",
+    "C02": "p_schema",
     "C03": "p_wire",
     "C04": "p_rules",
     "C05": "p_pipe",
     "C06": "p_wire",
     "C08": "p_wire",
     "C12": "p_rules",
+    "C13": "p_schema",
+    "C14": "p_schema",
     "C15": "p_pipe",
     "C16": "p_pipe",
     "C17": "p_entity",
@@ -23,6 +26,7 @@ MODULES = {
     "C09": "p_bcl",
     "C10": "p_c10",
     "C11": "p_bcl",
+    "C18": "p_shapes",
     "C19": "p_bcl",
     "C20": "p_id62",
 }
